@@ -206,7 +206,8 @@ class Gen:
             kinds += ['OMinIndicator', 'OMaxIndicator', 'OMinIndicator']
         k = r.choice(kinds)
         if k == 'ORaw':
-            o = (k, N(self.nexti), self.ind_term(), Z(r.choice([1, 2, 3])), r.random() < 0.3)
+            # (the incremental optimiser reads model[target]: the target must be a variable)
+            o = (k, N(self.nexti), ('TV', (r.choice(['VStart', 'VEnd']), N(r.choice(list(self.tasks))))), Z(r.choice([1, 2, 3])), r.random() < 0.3)
         elif k in ('OMakespan', 'OStartEarliest', 'OPriorities'):
             o = (k,)
         elif k in ('OStartLatest', 'OGreatestStart', 'OFlowtime'):
